@@ -94,7 +94,7 @@ Run ==
      \/ Do("ia", "", PI!GoIntoArray(P, buf), TRUE, 1)
      \/ Do("lo", "", PI!LeaveObject(P, buf), TRUE, 1)
      \/ Do("la", "", PI!LeaveArray(P, buf), TRUE, 1)
-     \/ \E op \in {"raw", "tw"} : Do(op, "", PI!GetRaw(P, buf), TRUE, 2)
+     \/ \E op \in {"raw", "tw", "twe"} : Do(op, "", PI!GetRaw(P, buf), TRUE, 2)
      \/ Do("gn", "", GetNameR, FALSE, 0)
      \/ Do("fN", "", PI!FieldNull(P), TRUE, 0)
      \/ (InObjNow /\ \E nm \in Names : Do("f", F!HexStr(nm), PI!Field(P, buf, nm), TRUE, Len(buf)))
